@@ -1,7 +1,7 @@
 #!/usr/bin/env python3
 """usage: runkani.py <group> [harness ...]   -- run the harnesses of kani/<group>_harness.rs on a scratch copy of /repo"""
 import sys, json, time
-sys.path.insert(0, '/verif')
+import os; sys.path.insert(0, os.path.dirname(os.path.dirname(os.path.abspath(__file__))))
 from vf import kani
 g = sys.argv[1]; only = sys.argv[2:] or None
 t = time.time()
